@@ -369,3 +369,20 @@ def object_level(V, how, cls, pre):
         want = V.itp.call(V.itp.get_function(FR + 'calc_smooth_fa_spectrum'), [f, F, targets], dict(band=band))
         out.prove('smoothed-spectrum-is-calc_smooth_fa_spectrum(frequencies, spectrum, targets, band-of-this-request)', CS.values_equal(V, got, want))
         out.unchanged('x', st['x'])
+
+
+# ------------------------------------------------------ object-level smoothed spectrum AFTER the record or the settings changed
+import contracts_c04_cache as C4
+
+_CHANGES7 = ['reset_values', 'add_constant', 'add_series', 'remove_poly/1', 'butter_pass/band', 'smooth_fa_freqs=', 'smooth_fa_frequencies=',
+             'set_smooth_fa_frequecies_by_range', 'smooth_freq_range=', 'smooth_freq_points=', 'gen_smooth_fa_spectrum(smooth_fa_freqs=)', 'gen_fa_spectrum()']
+
+
+@unit('C07', 'smoothed-spectrum-after-the-record-or-the-settings-changed', functions=C4.FUNCS,
+      cases=[dict(cls=c, op=k) for c in ('Signal', 'AccSignal') for k in _CHANGES7], modes=('unbounded',), budget_ms=3000)
+def smoothed_after_change(V, cls, op):
+    """History read the smoothed spectrum -> change the record / the smoothing frequencies through a public operation -> read again:
+    the object reports the smoothed spectrum of a freshly constructed object with the NEW record and settings."""
+    ops = dict(C4.COMMON_OPS)
+    ops.update(C4.ACC_OPS)
+    C4.run_op(V, cls, op, ops[op], ['smooth_fa_spectrum', 'smooth_fa_frequencies', 'smooth_fa_freqs'], prewarm=True)
